@@ -498,7 +498,7 @@ def _still_fails(im: c01_impl.Impl, rep: dict) -> bool:
     if fam.startswith('container-eq'):
         return bool(ok and vs and vs.get('x') is True)
     if fam == 'dict-literal-kwargs':
-        return not ok or (vs or {}).get('ok') is False
+        return not ok or 'kwargs' not in ((vs or {}).get('d') or {})
     if fam == 'short-circuit':
         want = ' or ' in code.split('=', 1)[1] and ' and ' not in code
         return not (ok and vs and vs.get('x') is want and not im.messages)
